@@ -89,7 +89,7 @@ theorem resolveAll_pw {t : SymTab} {ss ss' : List Stmt} (h : resolveAll t ss = s
 
 theorem translateAll_pw {ss ss' : List Stmt} (h : translateAll ss = some ss') :
     PW (fun s s' => ∃ p, translateOperand s.operand s.row = .ok p ∧
-          s' = { s with pkg := p, fixedSize := !(p.needsRes || !p.choices.isEmpty) }) ss ss' := by
+          s' = { s with pkg := p, fixedSize := p.choices.isEmpty }) ss ss' := by
   induction ss generalizing ss' with
   | nil => simp [translateAll] at h; subst h; exact .nil
   | cons s rest ih =>
